@@ -147,6 +147,14 @@ type c14RunCfg struct {
 	RareTypes       []int `json:"rare_types"`
 	RareLate        []int `json:"rare_types_added_after_restart"`
 	FirstCreateFail int   `json:"first_create_of_a_type_fails_percent"`
+	// the first queue fetch of every dispatcher generation takes this long
+	// (and, if FirstPollFails, fails once before: the scheduler retries
+	// after 1 s), so that the pool's instance list loads first
+	FirstPollDelayMs int  `json:"first_poll_delay_ms"`
+	FirstPollFails   bool `json:"first_poll_fails_once"`
+	// percentage of inherited instances whose first SSH command from a
+	// restarted dispatcher is slow (50-400 ms)
+	SlowFirstProbePct int `json:"slow_first_probe_percent"`
 }
 
 // c14Ms converts a duration given for the reference poll interval (5 ms)
@@ -196,6 +204,9 @@ func c14GenCfg(rng *verifkit.Rand, thorough bool) c14RunCfg {
 		cfg.RareLate = []int{9, 10}[:rng.Range(1, 2)]
 	}
 	cfg.FirstCreateFail = rng.PickInt(40, 60, 80)
+	cfg.FirstPollDelayMs = rng.PickInt(0, 100, 200, 300, 300)
+	cfg.FirstPollFails = rng.Chance(1, 5)
+	cfg.SlowFirstProbePct = rng.PickInt(50, 70, 90)
 	cfg.LateAdd = rng.Range(0, 6)
 	cfg.DestroyErr = rng.PickInt(0, 10, 20, 40)
 	cfg.ListRateLim = rng.PickInt(0, 2, 5)
@@ -324,10 +335,15 @@ type c14VM struct {
 	// it strikes a BUSY instance): from reportNs on "crunch-run --list"
 	// also says "broken", from deadNs on no SSH command is answered any more
 	// (unix nanoseconds, 0 = not armed; accessed atomically)
+	longStart        bool // slow-start VM whose --detach takes 1.5-3 s
 	compound         bool
+	reportFirst      bool // compound: reports broken before it dies
 	reportNs, deadNs int64
-	destroyed        int64 // time of successful Destroy return; 0 = still exists
-	windows          []c14Window
+	// once dead, every command hangs this long before it fails (longer than
+	// the pool's SyncInterval); 0 = fails at once
+	slowFail  time.Duration
+	destroyed int64 // time of successful Destroy return; 0 = still exists
+	windows   []c14Window
 	// first "--list" answer containing "broken" seen by generation g, and
 	// the first "--list" call begun after that
 	brokenSeen map[int]int64
@@ -364,6 +380,9 @@ type c14Gen struct {
 	oblig        map[string]*c14Oblig
 	detaches     map[*c14InflightDetach]bool
 	createSeen   map[string]int // Create calls per instance type name
+	pollAttempts int
+	fetched      bool  // the first queue fetch of this process has succeeded
+	startT       int64 // log time at which this generation was started
 }
 
 // c14InflightDetach: a "crunch-run --detach" command a dispatcher has sent
@@ -445,6 +464,7 @@ type c14World struct {
 	// number of crunch-run --detach commands currently sleeping in a
 	// slow-start VM's CrunchRunDetachDelay (process inserted, not answered)
 	slowInFlight int
+	longInFlight int // ... of which on VMs whose --detach takes 1.5-3 s
 	witnessHeld  string
 	createOK     map[string]int // Create calls per type that were passed on to the cloud
 	done         chan struct{}
@@ -769,6 +789,10 @@ type c14Executor struct {
 	w     *c14World
 	gen   *c14Gen
 	vm    string
+	// delay of the first command (a restarted dispatcher's first SSH
+	// connection to an instance it inherited); 0 = none
+	firstDelay time.Duration
+	used       int32
 }
 
 func (x *c14Executor) SetTarget(t cloud.ExecutorTarget) { x.inner.SetTarget(t) }
@@ -780,6 +804,10 @@ func (x *c14Executor) Execute(env map[string]string, cmd string, stdin io.Reader
 		return nil, nil, errC14Dead
 	}
 	defer g.leave()
+	if atomic.CompareAndSwapInt32(&x.used, 0, 1) && x.firstDelay > 0 {
+		w.count("slow_first_command_on_inherited_instance", 1)
+		time.Sleep(x.firstDelay)
+	}
 	kind, uuid := c14Classify(cmd)
 	t := w.log.add(c14Event{Kind: "x-" + kind + "-call", Gen: g.n, VM: x.vm, UUID: uuid})
 	switch kind {
@@ -869,6 +897,14 @@ func (q *c14EQueue) seq(name string) {
 func (q *c14EQueue) Entries() (map[string]container.QueueEnt, time.Time) {
 	ents, t := q.inner.Entries()
 	g := q.gen
+	g.mu.Lock()
+	fetched := g.fetched
+	g.mu.Unlock()
+	if !fetched {
+		// a new dispatcher process starts with an empty queue cache (the
+		// shared test.Queue object keeps the previous process's cache)
+		ents, t = map[string]container.QueueEnt{}, time.Time{}
+	}
 	cp := make(map[string]container.QueueEnt, len(ents))
 	for u, e := range ents {
 		cp[u] = e
@@ -906,9 +942,17 @@ func (q *c14EQueue) Forget(uuid string) {
 	}
 	q.inner.Forget(uuid)
 }
-func (q *c14EQueue) Get(uuid string) (arvados.Container, bool) { return q.inner.Get(uuid) }
-func (q *c14EQueue) Subscribe() <-chan struct{}                { return q.inner.Subscribe() }
-func (q *c14EQueue) Unsubscribe(ch <-chan struct{})            { q.inner.Unsubscribe(ch) }
+func (q *c14EQueue) Get(uuid string) (arvados.Container, bool) {
+	q.gen.mu.Lock()
+	fetched := q.gen.fetched
+	q.gen.mu.Unlock()
+	if !fetched {
+		return arvados.Container{}, false
+	}
+	return q.inner.Get(uuid)
+}
+func (q *c14EQueue) Subscribe() <-chan struct{}     { return q.inner.Subscribe() }
+func (q *c14EQueue) Unsubscribe(ch <-chan struct{}) { q.inner.Unsubscribe(ch) }
 func (q *c14EQueue) Update() error {
 	g := q.gen
 	if !g.enter() {
@@ -917,11 +961,31 @@ func (q *c14EQueue) Update() error {
 		return nil
 	}
 	defer g.leave()
+	w := q.w
+	g.mu.Lock()
+	first := g.polls == 0
+	attempt := g.pollAttempts
+	g.pollAttempts++
+	g.mu.Unlock()
+	if first && w.cfg.Witness == "" {
+		if w.cfg.FirstPollFails && attempt == 0 {
+			w.count("fault_first_queue_fetch_failed", 1)
+			w.log.add(c14Event{Kind: "q-first-fetch-fails", Gen: g.n})
+			return errors.New("c14: injected API error on the first queue fetch")
+		}
+		if w.cfg.FirstPollDelayMs > 0 {
+			w.count("fault_first_queue_fetch_slow", 1)
+			time.Sleep(time.Duration(w.cfg.FirstPollDelayMs) * time.Millisecond)
+		}
+		w.log.add(c14Event{Kind: "q-first-fetch-done", Gen: g.n})
+	}
 	err := q.inner.Update()
 	g.mu.Lock()
 	g.polls++
+	if err == nil {
+		g.fetched = true
+	}
 	g.mu.Unlock()
-	w := q.w
 	w.mu.Lock()
 	w.polls++
 	w.cond.Broadcast()
@@ -1177,13 +1241,26 @@ func (w *c14World) setupVM(svm *test.StubVM) {
 		vm.kind = "unkillable"
 		vm.unkill = true
 	} else if !w.isCalm() && w.chance(w.cfg.FaultyVMPct) {
-		switch w.rnd(0, 15) {
+		switch w.rnd(0, 19) {
+		case 16, 17:
+			// never answers, and fails SLOWLY: every command hangs longer
+			// than the pool's SyncInterval before it fails
+			vm.kind = "never-answers-slowly"
+			vm.slowFail = time.Duration(w.rnd(80, 150)) * time.Millisecond
+			vm.deadNs = time.Now().UnixNano()
+		case 18, 19:
+			// stops answering (slowly failing commands) shortly after its
+			// first crunch-run start; processes mostly die unfinalized
+			vm.kind = "dies-slowly-while-busy"
+			vm.compound = true
+			vm.slowFail = time.Duration(w.rnd(80, 150)) * time.Millisecond
+			svm.CrunchRunCrashRate = 0.8
 		case 12, 13, 15:
 			// compound fault: reports itself broken (the pool drains it)
 			// and shortly afterwards stops answering altogether; most of
 			// its crunch-run processes die without finalizing the container
 			vm.kind = "reports-broken-then-dead"
-			vm.compound = true
+			vm.compound, vm.reportFirst = true, true
 			svm.CrunchRunCrashRate = 0.8
 		case 14:
 			// temporary outage longer than TimeoutProbe, and an instance
@@ -1195,7 +1272,8 @@ func (w *c14World) setupVM(svm *test.StubVM) {
 		case 9, 10:
 			vm.kind = "slow-start"
 			svm.CrunchRunDetachDelay = time.Duration(w.rnd(100, 400)) * time.Millisecond
-			if w.chance(35) {
+			if w.chance(60) {
+				vm.longStart = true
 				// long enough to outlast a restarted dispatcher's
 				// fixStaleLocks phase (which lasts TimeoutBooting when an
 				// instance that cannot boot exists)
@@ -1264,11 +1342,17 @@ func (w *c14World) setupVM(svm *test.StubVM) {
 			if vm.kind == "slow-start" && !booting {
 				w.mu.Lock()
 				w.slowInFlight++
+				if vm.longStart {
+					w.longInFlight++
+				}
 				w.cond.Broadcast()
 				w.mu.Unlock()
 				defer func() {
 					w.mu.Lock()
 					w.slowInFlight--
+					if vm.longStart {
+						w.longInFlight--
+					}
 					w.mu.Unlock()
 				}()
 			}
@@ -1278,6 +1362,10 @@ func (w *c14World) setupVM(svm *test.StubVM) {
 			}
 		}
 		if dn := atomic.LoadInt64(&vm.deadNs); dn != 0 && time.Now().UnixNano() >= dn {
+			if vm.slowFail > 0 {
+				time.Sleep(vm.slowFail)
+				w.count("fault_fired_slowly_failing_exec", 1)
+			}
 			fmt.Fprintln(stderr, "c14: instance does not answer any more")
 			w.count("fault_fired_drained_instance_dead_refused_exec", 1)
 			if kind == "detach" {
@@ -1297,7 +1385,7 @@ func (w *c14World) setupVM(svm *test.StubVM) {
 		}
 		rc := orig(env, command, stdin, stdout, stderr)
 		if kind == "list" && rc == 0 {
-			if rn := atomic.LoadInt64(&vm.reportNs); rn != 0 && time.Now().UnixNano() >= rn {
+			if rn := atomic.LoadInt64(&vm.reportNs); rn > 0 && time.Now().UnixNano() >= rn {
 				fmt.Fprintln(stdout, "broken")
 				w.count("fault_fired_busy_instance_reported_broken", 1)
 			}
@@ -1313,7 +1401,11 @@ func (w *c14World) setupVM(svm *test.StubVM) {
 				if vm.compound && atomic.LoadInt64(&vm.reportNs) == 0 {
 					r := time.Now().Add(time.Duration(w.rnd(3, 30)) * time.Millisecond)
 					atomic.StoreInt64(&vm.deadNs, r.Add(time.Duration(w.rnd(15, 50))*time.Millisecond).UnixNano())
-					atomic.StoreInt64(&vm.reportNs, r.UnixNano())
+					if vm.reportFirst {
+						atomic.StoreInt64(&vm.reportNs, r.UnixNano())
+					} else {
+						atomic.StoreInt64(&vm.reportNs, -1) // armed, never reports
+					}
 					w.count("compound_fault_armed_on_busy_instance", 1)
 				}
 				w.observeAll()
@@ -1639,6 +1731,7 @@ func (w *c14World) startGen() (*c14Gen, error) {
 	if err != nil {
 		return nil, err
 	}
+	g.startT = w.log.add(c14Event{Kind: "dispatcher-start", Gen: g.n})
 	ctx := ctxlog.Context(context.Background(), w.logger.WithField("gen", g.n))
 	disp := &dispatcher{
 		Cluster:       w.cluster,
@@ -1664,7 +1757,23 @@ func (w *c14World) startGen() (*c14Gen, error) {
 	}
 	disp.instanceSet = instanceSet
 	newExecutor := func(inst cloud.Instance) worker.Executor {
-		return &c14Executor{inner: disp.newExecutor(inst), w: w, gen: g, vm: string(inst.ID())}
+		x := &c14Executor{inner: disp.newExecutor(inst), w: w, gen: g, vm: string(inst.ID())}
+		if g.n > 0 && w.cfg.Witness == "" {
+			w.mu.Lock()
+			vm := w.vms[x.vm]
+			inherited := vm != nil && vm.created < g.startT
+			w.mu.Unlock()
+			if inherited && w.chance(w.cfg.SlowFirstProbePct) {
+				x.firstDelay = time.Duration(w.rnd(50, 400)) * time.Millisecond
+				// a busy instance answers its new master even more slowly
+				for _, p := range vm.svm.C14Procs() {
+					if !p.Exited {
+						x.firstDelay = time.Duration(w.rnd(300, 800)) * time.Millisecond
+					}
+				}
+			}
+		}
+		return x
 	}
 	realPool := worker.NewPool(disp.logger, disp.ArvClient, disp.Registry, disp.InstanceSetID, disp.instanceSet, newExecutor, disp.sshKey.PublicKey(), w.cluster)
 	g.pool = &c14EPool{w: w, gen: g, inner: realPool}
@@ -1676,7 +1785,6 @@ func (w *c14World) startGen() (*c14Gen, error) {
 	w.gens = append(w.gens, g)
 	w.cur = g
 	w.mu.Unlock()
-	w.log.add(c14Event{Kind: "dispatcher-start", Gen: g.n})
 	go disp.run()
 	return g, nil
 }
